@@ -3,10 +3,11 @@
  "property": ["C02", "C03"],
  "entry": "h_stream",
  "enforce": ["crypto_aesctr_stream"],
- "replace": ["crypto_aesctr_stream_cipherblock_use", "crypto_aesctr_stream_cipherblock_generate"],
+ "replace": ["crypto_aesctr_stream_cipherblock_use", "crypto_aesctr_stream_cipherblock_generate",
+             "crypto_aesctr_stream_pre_wholeblock", "crypto_aesctr_stream_post_wholeblock"],
  "annotate": ["crypto/crypto_aesctr.c", "crypto/crypto_aesctr_shared.c"],
  "defines": ["VERIF_HALLOC"],
- "timeout": 300,
+ "timeout": 60,
  "assumptions": ["generic build (no CPUSUPPORT_*): portable path only",
                  "buffer objects <= CTR_MAXLEN (64) bytes; stream position, call length and loop count are unbounded (loop contract)",
                  "domain: bytectr + buflen < 2^64 (stream length limit of the 64-bit byte counter)"]
@@ -26,6 +27,8 @@ h_stream(void)
 	IN(size_t, len);
 	__CPROVER_assume(len <= CTR_MAXLEN);
 	CTR_MK_BUFS(in, out, len);
+	g_ctr_in = in;		/* ghost arguments: the buffers of this call */
+	g_ctr_out = out;
 	uint64_t ctr0 = S->bytectr;
 	uint8_t inb = (g_i < len) ? in[g_i] : 0;
 	const struct crypto_aes_key * key0 = S->key;
